@@ -232,6 +232,12 @@ def run_kind(ctx, kind, extra=None, shards=None, exe='harness', tier=None, timeo
                           f'{kind}: stream length mismatch\n', no_input=True)
             continue
         rows += list(zip(cs, gs, ls))
+        # the streams are in memory now: the files of a thorough run add up to tens of GB over the twenty checks
+        for fp in (cp, gp, lp):
+            try:
+                os.remove(fp)
+            except OSError:
+                pass
     return rows
 
 
